@@ -81,7 +81,7 @@ Print Assumptions C05_conserve_single.
 Theorem C05_conserve_multi :
   forall (sort : list orec -> list orec) (merge : list bam -> bam) (valid : frag -> bool)
          (it : bool -> bool -> list frag -> list (list frag) * list frag) (qflag : bool)
-         (hdr : list (Z * Z)) (recs : list rec) (outs done : list (option bam)),
+         (hdr : list (Z * Z)) (recs : list rec) (in_rgs : list Z) (outs done : list (option bam)),
   (forall l, Permutation (sort l) l) ->
   (forall bs, Permutation (snd (merge bs)) (flat_map snd bs)) ->
   iter_contract valid it ->
@@ -90,10 +90,10 @@ Theorem C05_conserve_multi :
   pre_stream qflag recs ->
   job_outputs sort it qflag true true hdr recs = Ok outs ->
   Permutation done outs ->
-  Permutation (map key (map fst (snd (multi_merge merge done)))) (map key (map norm (expected qflag recs))).
+  Permutation (map key (map fst (snd (multi_merge merge in_rgs done)))) (map key (map norm (expected qflag recs))).
 Proof.
-  exact (fun sort merge valid it qflag hdr recs outs done Hs Hm Hit Hn Hp Hpre H Hd =>
-           multi_conserve sort merge valid it qflag Hs Hit Hm hdr recs Hn Hp outs done Hpre H Hd).
+  exact (fun sort merge valid it qflag hdr recs in_rgs outs done Hs Hm Hit Hn Hp Hpre H Hd =>
+           multi_conserve sort merge valid it qflag Hs Hit Hm hdr recs in_rgs Hn Hp outs done Hpre H Hd).
 Qed.
 Print Assumptions C05_conserve_multi.
 
@@ -125,19 +125,19 @@ Print Assumptions C05_no_rejects_single.
 Theorem C05_no_rejects_multi :
   forall (sort : list orec -> list orec) (merge : list bam -> bam) (valid : frag -> bool)
          (it : bool -> bool -> list frag -> list (list frag) * list frag) (qflag : bool)
-         (hdr : list (Z * Z)) (recs : list rec) (F : cname -> list frag) (outs done : list (option bam)),
+         (hdr : list (Z * Z)) (recs : list rec) (in_rgs : list Z) (F : cname -> list frag) (outs done : list (option bam)),
   (forall l, Permutation (sort l) l) ->
   (forall bs, Permutation (snd (merge bs)) (flat_map snd bs)) ->
   iter_contract valid it ->
   (forall c, fragments qflag (fetch c recs) = Ok (F c)) ->
   job_outputs sort it qflag false true hdr recs = Ok outs ->
   Permutation done outs ->
-  Permutation (map fst (snd (multi_merge merge done)))
+  Permutation (map fst (snd (multi_merge merge in_rgs done)))
               (flat_map (fun c => flat_map frag_recs (filter valid (F c)))
                         (concat (contig_jobs (contigs_with_reads hdr recs)))).
 Proof.
-  exact (fun sort merge valid it qflag hdr recs F outs done Hs Hm Hit HF H Hd =>
-           multi_no_rejects sort merge valid it qflag Hs Hit Hm hdr recs F outs done HF H Hd).
+  exact (fun sort merge valid it qflag hdr recs in_rgs F outs done Hs Hm Hit HF H Hd =>
+           multi_no_rejects sort merge valid it qflag Hs Hit Hm hdr recs in_rgs F outs done HF H Hd).
 Qed.
 Print Assumptions C05_no_rejects_multi.
 
@@ -159,28 +159,28 @@ Print Assumptions C05_sorted_rg_single.
 Theorem C05_rg_multi :
   forall (sort : list orec -> list orec) (merge : list bam -> bam)
          (it : bool -> bool -> list frag -> list (list frag) * list frag) (qflag yi yo : bool)
-         (hdr : list (Z * Z)) (recs : list rec) (outs done : list (option bam)),
+         (hdr : list (Z * Z)) (recs : list rec) (in_rgs : list Z) (outs done : list (option bam)),
   (forall l, Permutation (sort l) l) ->
   (forall bs, Permutation (snd (merge bs)) (flat_map snd bs)) ->
   (forall bs b, In b bs -> incl (fst b) (fst (merge bs))) ->
   job_outputs sort it qflag yi yo hdr recs = Ok outs ->
   Permutation done outs ->
-  forall r g, In (r, g) (snd (multi_merge merge done)) -> In g (fst (multi_merge merge done)).
+  forall r g, In (r, g) (snd (multi_merge merge in_rgs done)) -> In g (fst (multi_merge merge in_rgs done)).
 Proof.
-  exact (fun sort merge it qflag yi yo hdr recs outs done Hs Hm Hrg H Hd r g =>
-           multi_rg sort merge it qflag Hs Hm Hrg hdr recs yi yo outs done r g H Hd).
+  exact (fun sort merge it qflag yi yo hdr recs in_rgs outs done Hs Hm Hrg H Hd r g =>
+           multi_rg sort merge it qflag Hs Hm Hrg hdr recs in_rgs yi yo outs done r g H Hd).
 Qed.
 Print Assumptions C05_rg_multi.
 
 (* ---- no exception: with SAM-conformant flags neither verify_pair nor Fragment.__init__ raises *)
 Theorem C05_no_raise :
-  forall sort merge it qflag yi yo hdr recs,
+  forall sort merge it qflag yi yo in_rgs hdr recs,
   (forall r, In r recs -> wf_flags r = true) ->
   (exists b, single sort it qflag yi yo hdr recs = Ok b) /\
-  (exists b, multi sort merge it qflag yi yo hdr recs = Ok b).
+  (exists b, multi sort merge it qflag yi yo in_rgs hdr recs = Ok b).
 Proof.
-  exact (fun sort merge it qflag yi yo hdr recs H =>
-           conj (single_total sort it qflag yi yo hdr recs H) (multi_total sort merge it qflag yi yo hdr recs H)).
+  exact (fun sort merge it qflag yi yo in_rgs hdr recs H =>
+           conj (single_total sort it qflag yi yo hdr recs H) (multi_total sort merge it qflag yi yo in_rgs hdr recs H)).
 Qed.
 Print Assumptions C05_no_raise.
 
@@ -210,7 +210,7 @@ Example C05_demo :
   pre demo_hdr demo_recs = true /\
   (exists b, single csort demo_it false true true demo_hdr demo_recs = Ok b /\
              map (fun o : orec => r_id (fst o)) (snd b) = [1; 2; 3; 4; 5; 6; 8; 9]) /\
-  (exists b, multi csort cmerge demo_it false true true demo_hdr demo_recs = Ok b /\
+  (exists b, multi csort cmerge demo_it false true true [] demo_hdr demo_recs = Ok b /\
              map (fun o : orec => r_id (fst o)) (snd b) = [1; 2; 3; 4; 5; 6; 8; 9]) /\
   (exists b, single csort demo_it false false true demo_hdr demo_recs = Ok b /\
              map (fun o : orec => r_id (fst o)) (snd b) = [1; 2; 5; 6]) /\
